@@ -59,7 +59,7 @@ def run(ctx):
                 "privileged attempts, >=3 attack kinds; distinct over (command, target slot state, source, -c).")
     res.assumptions = ["the oracle only demands that a login happened before an effect; it never predicts the server's replies",
                        "fragment-size probe (R) and ping/data acknowledgements are not counted as privileged effects"]
-    n = ctx.pick(240, 8000)
+    n = ctx.pick(480, 40000)
     rng = random.Random(ctx.seed * 9029 + 3)
     plist = [{"idx": i, "seed": ctx.seed * 100000 + i, "cfg": advhist.gen_cfg(rng, i + ctx.seed)} for i in range(n)]
     if ctx.replay:
